@@ -640,7 +640,14 @@ def _dk_is_d_get(n):
 
 
 def _dk_guard_key(test):
-    """`"k" in d` -> k"""
+    """`"k" in d` -> k ;  `"k" in d and d["k"] is not None` -> k (the caller records that None counts as omitted)"""
+    if isinstance(test, ast.BoolOp) and isinstance(test.op, ast.And) and len(test.values) == 2:
+        k = _dk_guard_key(test.values[0])
+        t = test.values[1]
+        if k is not None and isinstance(t, ast.Compare) and len(t.ops) == 1 and isinstance(t.ops[0], ast.IsNot) \
+                and _dk_is_d_sub(t.left) == k and isinstance(t.comparators[0], ast.Constant) and t.comparators[0].value is None:
+            return k
+        return None
     if isinstance(test, ast.Compare) and len(test.ops) == 1 and isinstance(test.ops[0], ast.In) \
             and isinstance(test.left, ast.Constant) and isinstance(test.left.value, str) \
             and isinstance(test.comparators[0], ast.Name) and test.comparators[0].id == "d":
@@ -659,6 +666,7 @@ def _dk_reader(src, fn):
             if extra:
                 raise AnchorLost("%s:%s process_input_dict_keys called with a policy" % (src.rel, fn.name))
     wiring, mandatory, optional_get, units_default = [], [], [], None
+    none_as_omitted, reader_default = [], []
     varkeys = {}
     # the dictionary of constructor arguments: the name splatted into a call (`Cls(**da)`), whatever it is called
     kw_name = "da"
@@ -699,11 +707,18 @@ def _dk_reader(src, fn):
             if isinstance(st, ast.If):
                 gk = _dk_guard_key(st.test)
                 if gk is not None:
+                    if isinstance(st.test, ast.BoolOp) and gk not in none_as_omitted:
+                        none_as_omitted.append(gk)
                     visit(st.body, guards + [gk])
                     if any(isinstance(x, ast.Raise) for x in st.orelse):
                         if gk not in mandatory:
                             mandatory.append(gk)
                     else:
+                        # an else branch that fills the constructor argument itself: the reader's own default
+                        for x in st.orelse:
+                            if isinstance(x, ast.Assign) and len(x.targets) == 1 and isinstance(x.targets[0], ast.Subscript) \
+                                    and isinstance(x.targets[0].value, ast.Name) and x.targets[0].value.id == kw_name:
+                                reader_default.append((gk, re.sub(r"\s+", "", src.seg(x.value))))
                         visit(st.orelse, guards)
                 else:
                     # unguarded subscripts in the test itself are mandatory reads
@@ -716,10 +731,11 @@ def _dk_reader(src, fn):
             if isinstance(st, (ast.For, ast.While, ast.With, ast.Try)):
                 visit(getattr(st, "body", []), guards)
                 continue
-            # mandatory: a plain d["k"] outside a guard for k
+            # mandatory: a plain d["k"] outside a guard for k (a `d.get("k", ..)` test in the same statement is a guard)
+            got = [_dk_is_d_get(n) for n in ast.walk(st)]
             for n in ast.walk(st):
                 k = _dk_is_d_sub(n)
-                if k is not None and k not in guards and k not in mandatory:
+                if k is not None and k not in guards and k not in got and k not in mandatory:
                     mandatory.append(k)
                 k = _dk_is_d_get(n)
                 if k is not None and k not in optional_get:
@@ -769,7 +785,7 @@ def _dk_reader(src, fn):
                             add_wire(k, kw.arg)
 
     visit(fn.body, [])
-    return aliases, wiring, mandatory, optional_get, units_default
+    return aliases, wiring, mandatory, optional_get, units_default, none_as_omitted, reader_default
 
 
 def _dk_writer(src, fn):
@@ -841,6 +857,8 @@ def gen_DictKeys(repo):
          "  mandatory : List String",
          "  optionalGet : List String",
          "  unitsDefault : Option String",
+         "  noneAsOmitted : List String",
+         "  readerDefault : List (String × String)",
          "  emitted : List String",
          "  emittedCond : List String",
          "  ctor : List (String × Option String)",
@@ -851,7 +869,7 @@ def gen_DictKeys(repo):
         if mod not in srcs:
             srcs[mod] = PySrc(repo, "src/strengths/" + mod)
         src = srcs[mod]
-        aliases, wiring, mandatory, optget, udef = _dk_reader(src, src.func(reader))
+        aliases, wiring, mandatory, optget, udef, none_om, rdef = _dk_reader(src, src.func(reader))
         if aliases is None and name != "trajectory":
             raise AnchorLost("%s:%s process_input_dict_keys call" % (mod, reader))
         if name == "trajectory":
@@ -870,6 +888,8 @@ def gen_DictKeys(repo):
         L.append("  mandatory := %s" % lean_list([lean_str(k) for k in mandatory]))
         L.append("  optionalGet := %s" % lean_list([lean_str(k) for k in optget]))
         L.append("  unitsDefault := %s" % opt(udef))
+        L.append("  noneAsOmitted := %s" % lean_list([lean_str(k) for k in none_om]))
+        L.append("  readerDefault := %s" % lean_list(["(%s, %s)" % (lean_str(k), lean_str(v)) for k, v in rdef]))
         L.append("  emitted := %s" % lean_list([lean_str(k) for k in emitted]))
         L.append("  emittedCond := %s" % lean_list([lean_str(k) for k in cond]))
         L.append("  ctor := %s\n" % lean_list(["(%s, %s)" % (lean_str(p), opt(d)) for p, d in params]))
